@@ -406,6 +406,10 @@ def run(ctx):
 
     pr = Probes()
     pr.watch("ural.normalize_url:normalize_url", want_args=False)
+    if ctx.tier == "thorough":
+        # the C14 contracts also run on every value these workloads push through unquote / safely_quote / upper_quoted
+        from vf import contracts_quote as cq
+        cq.QuoteProbes(ctx, pr, prefix="C05:inner")
     pr.watch("ural.normalize_url:should_strip_query_item", want_args=False, lines=False)
     pr.start()
     rng = ctx.rng
